@@ -77,7 +77,11 @@ def probes(tables, only=None, subsets=None):
     return out
 
 
-def scenario_from_hist(scn, tables, menu, hist, opts=None, probe_every=True, int_vals=False, subsets=None):
+def scenario_from_hist(scn, tables, menu, hist, opts=None, probe_every=True, int_vals=False, subsets=None,
+                       others=None):
+    """others: rng -> after every Probe / completed flush one or two generated
+    queries are run (RunSQL), each followed by the probes."""
+    import querygen
     cmds = []
     up = False
     cur = {t.name: t for t in tables}
@@ -104,6 +108,10 @@ def scenario_from_hist(scn, tables, menu, hist, opts=None, probe_every=True, int
             cmds.append(render_insert(menu[h["i"] - 1], int_vals=int_vals))
         elif a == "Probe":
             cmds += probes([cur[t.name] for t in tables], subsets=subsets)
+            if others is not None:
+                for _ in range(others.randint(1, 2)):
+                    cmds.append({"a": "RunSQL", "sql": querygen.gen_query(others, tables), "mem": others.random() < 0.7})
+                    cmds += probes([cur[t.name] for t in tables])
         elif a == "Start":
             cmds.append({"a": "Start"})
             up = True
@@ -116,6 +124,9 @@ def scenario_from_hist(scn, tables, menu, hist, opts=None, probe_every=True, int
             cmds.append(c)
             if probe_every:
                 cmds += probes([cur[t.name] for t in tables], only=h["t"], subsets=subsets if a == "FlushSwap" else None)
+            if others is not None and a in ("FlushSwap", "Apply") and others.random() < 0.5:
+                cmds.append({"a": "RunSQL", "sql": querygen.gen_query(others, tables), "mem": others.random() < 0.7})
+                cmds += probes([cur[t.name] for t in tables])
     if not up:
         cmds.append({"a": "Start"})
     open_scans = []
@@ -868,6 +879,45 @@ def check_C18(args):
                        end_oracle=False, extra_cov=extra_cov)
 
 
+# ---------------------------------------------------------------- C04
+
+def check_C04(args):
+    def mc_jobs(quick):
+        # every query action of the specification leaves all variables unchanged
+        # (TQueryStart/TQueryResult/TOther in TraceStore, Probe in SimStore); the
+        # exhaustive run covers the storage states the queries are run against
+        return [dict(tables=MC_TABLES, menu=MC_MENU, max_flushes=3, max_crashes=1)]
+
+    def gen(rng, quick, work, flags):
+        n_menus, per = (6, 16) if quick else (60, 100)
+        for mi in range(n_menus):
+            tabs = C03_TABLES
+            # few keys, many periods per key: series long enough for time ranges
+            # that end before the newest stored period
+            menu = random_menu(rng, rng.randint(8, 12), ticks=(1, 9), keys=rng.choice([[1, 3], [3, 4], [1, 3, 4]]),
+                               nonnumeric=False)
+            hs = sim_scripts(tabs, menu, flags, per, rng.choice([50, 70]), rng.randint(1, 10 ** 6),
+                             os.path.join(work, "sim%d" % mi), max_flushes=6, max_crashes=2, allow_close=True)
+            for j, h in enumerate(hs):
+                yield scenario_from_hist("C04-%d-%d" % (mi, j), tabs, menu, h, others=rng), tabs
+
+    def extra_cov(scenarios, traces):
+        qs = [c["sql"] for s in scenarios for c in s["cmds"] if c["a"] == "RunSQL"]
+        ran = [l for ls in traces.values() for l in ls if l["a"] == "Other"]
+        return {"queries_run": len(ran), "distinct_queries": len(set(qs)),
+                "queries_returning_rows": sum(1 for l in ran if l.get("nrows", 0) > 0),
+                "queries_with_time_range": sum(1 for q in set(qs) if "UNTIL" in q or "ASOF" in q),
+                "sample_queries": sorted(set(qs))[:8]}
+
+    return store_check(args, "C04", mc_jobs, gen, ["MemLockStep", "DiskLockStep", "ExactlyOnce"], True,
+                       ["probe = SELECT * (all fields, no grouping) with and without the memstore, compared with the "
+                        "specification's view before and after every generated query and again after the next flush",
+                        "generated queries: select lists incl. derived and shifted fields, relative and absolute ASOF/UNTIL "
+                        "(incl. ranges ending before the newest stored period), grouping, period multiples, stride, "
+                        "crosstab, FROM- and IN-sub-queries, having, order, limit"] + BASE_ASSUMPTIONS,
+                       extra_cov=extra_cov)
+
+
 def tables_from_defs(sc):
     """Rebuild Table objects of a stored scenario (replay)."""
     out = []
@@ -880,4 +930,4 @@ def tables_from_defs(sc):
     return out
 
 
-CHECKS = {"C18": check_C18, "C15": check_C15, "C14": check_C14, "C01": check_C01, "C02": check_C02, "C03": check_C03}
+CHECKS = {"C04": check_C04, "C18": check_C18, "C15": check_C15, "C14": check_C14, "C01": check_C01, "C02": check_C02, "C03": check_C03}
